@@ -730,6 +730,14 @@ func (x *Exec) newFrame(fn *ssa.Function, parent *Frame, params, free []*Val, c 
 	if c != nil {
 		for k := range c.Loops {
 			if n, err := strconv.Atoi(k); err == nil && n >= len(fr.g.loops) {
+				if len(fr.g.loops) == 0 {
+					// the function no longer has any loop of its own (replaced by a builtin such as clear/copy, or
+					// moved into a helper): the clauses have nothing to attach to and the body is decided without
+					// them - a loop-free body needs no invariant, and a loop inside an inlined helper counts as a
+					// bare loop (functional obligations that then stop discharging are UNDECIDED, see BareLoops)
+					x.eng.Note(fmt.Sprintf("%s: contract has loop clauses but the function has no loop; clauses ignored", fn))
+					continue
+				}
 				stale("contract has clauses for loop %d but %s has %d loop(s)", n, fn, len(fr.g.loops))
 			}
 		}
